@@ -5,7 +5,7 @@ import json, os, shutil, subprocess, sys, time
 from core import Broken
 
 VERIF = os.path.dirname(os.path.dirname(os.path.abspath(__file__)))
-WORK = os.path.join(VERIF, '.work')
+WORK = os.environ.get('VERIF_WORK') or os.path.join(VERIF, '.work')
 REPO = os.environ.get('ASCENT_REPO', '/repo')
 
 
